@@ -19,6 +19,23 @@ func VerifC13RealRegistry() {
 		b, _ := json.Marshal(string(s))
 		zz.Assert(back.UnmarshalJSON(b) == nil && back == s, "every source the registry lists survives a JSON round trip")
 	}
+	// ... and by the filter: one Filter per listed source (its lints of every kind come back), and all listed
+	// names at once as include names and as exclude names (an error for any one of them would surface)
+	for _, s := range r.Sources() {
+		fr, err := r.Filter(lint.FilterOptions{IncludeSources: lint.SourceList{s}})
+		zz.Assert(err == nil && fr != nil, "every source the registry lists is accepted as an include source")
+		if err == nil && fr != nil {
+			n := len(r.CertificateLints().BySource(s)) + len(r.RevocationListLints().BySource(s)) + len(r.OcspResponseLints().BySource(s))
+			zz.Assert(len(fr.Names()) == n && n > 0, "filtering by a listed source selects exactly that source's lints of every kind")
+		}
+		_, err = r.Filter(lint.FilterOptions{ExcludeSources: lint.SourceList{s}})
+		zz.Assert(err == nil, "every source the registry lists is accepted as an exclude source")
+	}
+	all := r.Names()
+	fr, err := r.Filter(lint.FilterOptions{IncludeNames: all})
+	zz.Assert(err == nil && fr != nil && len(fr.Names()) == len(all), "every lint name the registry lists is accepted as an include name")
+	fr, err = r.Filter(lint.FilterOptions{ExcludeNames: all})
+	zz.Assert(err == nil && fr != nil && len(fr.Names()) == 0, "every lint name the registry lists is accepted as an exclude name")
 	known := map[string]bool{}
 	for _, n := range r.Names() {
 		known[n] = true
